@@ -1,11 +1,11 @@
 import FrappyDrive.Util
 import FrappyModel.Spec.C20
-import FrappyModel.Generated.Tables
+import FrappyModel.Generated.C20
 /- line-protocol glue for C20 -/
 namespace Frappy.Drive.C20
 open Lean Frappy.Drive Frappy.Logging Frappy.Spec.C20
 
-def tables : Tables := ⟨Generated.logLevels, Generated.logOff⟩
+def tables : Tables := ⟨Generated.C20.logLevels, Generated.C20.logOff⟩
 
 def isLogName (pfx : String) (name : String) : Bool :=
   name.startsWith (pfx ++ "-") && name.endsWith ".log"
